@@ -94,17 +94,19 @@ Fixpoint resolve_expr (e : expr) (offset : nat) (g : gstate) {struct e} : gres (
   | ELoop mn mx fw nm body =>
       let unnamed := Nat.eqb (length nm) 0 in
       (* the first [mn] iterations of an unnamed loop are unrolled; [k] receives the rest *)
+      (* every copy of the body starts from the names known at the loop's entry (generateLoop: entry_variables) *)
+      let entry_vars := gvars g in
       let fix unroll (k : nat) (cur : nat) (g : gstate) (tail : nat -> gstate -> gres (rx * gstate))
           : gres (rx * gstate) :=
           match k with
           | O => tail cur g
-          | S k' => gbind (resolve_expr body cur g) (fun '(c, g1) =>
+          | S k' => gbind (resolve_expr body cur (set_vars g entry_vars)) (fun '(c, g1) =>
                     gbind (unroll k' (cur + rx_len c) g1 tail) (fun '(rest, g2) => GOk (XSeq c rest, g2)))
           end in
       let tail := fun (cur : nat) (g1 : gstate) =>
         if (unnamed && Z.eqb (Z.of_nat mn) mx)%bool then GOk (XEps, g1)
         else
-          gbind (resolve_expr body (cur + 1) g1) (fun '(c, g2) =>
+          gbind (resolve_expr body (cur + 1) (set_vars g1 entry_vars)) (fun '(c, g2) =>
             let newmin := if (unnamed && Nat.ltb 0 mn)%bool then 0 else mn in
             let newmax := if (unnamed && Z.ltb 0 mx)%bool then (mx - Z.of_nat mn)%Z else mx in
             let id := gnext g2 in
